@@ -1,0 +1,41 @@
+//! Hooks for the verification machinery. Compiled only with `--cfg abyssiniandb_verif`.
+use std::cell::RefCell;
+
+pub fn value_slot(value_len: usize) -> (u32, u32) {
+    super::val::verif_value_slot(value_len)
+}
+pub fn value_roundup(size: u32) -> u32 {
+    super::val::verif_value_roundup(size)
+}
+pub fn value_free_list_offset(size: u32) -> (u64, bool) {
+    super::val::verif_value_free_list_offset(size)
+}
+pub fn key_slot(key_len: usize, value_offset: u64, next_offset: u64) -> (u32, u32) {
+    super::key::verif_key_slot(key_len, value_offset, next_offset)
+}
+pub fn key_roundup(size: u32) -> u32 {
+    super::key::verif_key_roundup(size)
+}
+pub fn key_free_list_offset(size: u32) -> (u64, bool) {
+    super::key::verif_key_free_list_offset(size)
+}
+pub fn capacity_to_buckets_size(cap: u64) -> u64 {
+    super::htx::verif_capacity_to_buckets_size(cap)
+}
+pub fn xorshift64s(a: u64) -> u64 {
+    crate::verif_xorshift64s(a)
+}
+
+thread_local! {
+    static IO_TRACE: RefCell<Vec<(String, &'static str)>> = RefCell::new(Vec::new());
+}
+
+/// records an event of a buffered file: (file name, event).
+pub(crate) fn io_trace(name: String, event: &'static str) {
+    IO_TRACE.with(|t| t.borrow_mut().push((name, event)));
+}
+
+/// returns and clears the events recorded on this thread.
+pub fn take_io_trace() -> Vec<(String, &'static str)> {
+    IO_TRACE.with(|t| std::mem::take(&mut *t.borrow_mut()))
+}
